@@ -314,6 +314,28 @@ def c03_oracle(case, r):
             early = [p for p, idx in bodies.items() if p.rsplit(".", 1)[0] == path and idx < h[0]]
             if early:
                 hits.append(("test-before-setup-suite", "test %s started before setup_suite of %s" % (early[0], path)))
+    # hooks of the TEST scope: teardown_test exactly once whenever setup_test has completed (also when a test fixture set up
+    # after it, or the body, fails), never twice, never before the body has ended; when the suite has no setup_test hook,
+    # teardown_test runs for every test whose test-scope setup began at all
+    if oc[0] == "returned":
+        for path, s, dis in walk_suites(pd):
+            hk = s.get("hooks") or {}
+            if hk.get("teardown_test") is None:
+                continue
+            for t in s.get("tests", []):
+                tp = path + "." + t["name"]
+                tb = [h for h in hooks if h[1] == "hook_begin" and h[2] == "teardown_test" and h[3] == tp]
+                se = [h for h in hooks if h[1] == "hook_end" and h[2] == "setup_test" and h[3] == tp]
+                if len(tb) > 1:
+                    hits.append(("teardown-test-executed-twice", "teardown_test of %s was executed %d times" % (tp, len(tb))))
+                # "completed" = returned without having recorded a failure (an error log makes the setup a failed one, whose
+                # teardown is not due)
+                dirty = [i for i, a in enumerate(trace) if a[1] == "flag" and a[2] == "failure" and len(a) > 3 and
+                         isinstance(a[3], list) and len(a[3]) > 1 and a[3][1] == tp and se and i <= se[0][0]]
+                if hk.get("setup_test") is not None and se and not dirty and not tb:
+                    hits.append(("teardown-test-never-executed", "setup_test of %s completed but teardown_test was never executed" % tp))
+                if hk.get("setup_test") is None and tp in bodies and not tb:
+                    hits.append(("teardown-test-never-executed", "the body of %s was executed but teardown_test was never executed" % tp))
     # de-duplicate by signature
     seen, out = set(), []
     for sig, text in hits:
